@@ -18,7 +18,7 @@ package qrAlgorithm
 
 /* -------------------------------------------------------------------------- */
 
-//import   "fmt"
+import   "fmt"
 import   "math"
 
 import . "github.com/pbenner/autodiff"
@@ -135,7 +135,10 @@ func qrAlgorithmSymmetric(inSitu *InSitu, epsilon float64) (Matrix, Matrix, erro
     Z = Z_
   }
 
-  for p, q := 0, 0; q < n; {
+  for p, q, iter := 0, 0, 0; q < n; iter++ {
+    if iter >= maxSweeps*n {
+      return nil, nil, fmt.Errorf("QR algorithm did not converge")
+    }
 
     for i := 0; i < n-1; i++ {
       t11 := T.At(i  ,i  ).GetFloat64()
